@@ -25,41 +25,60 @@ Section EndToEnd.
     apply IH. discriminate.
   Qed.
 
-  Definition start (x : list F * list mat) : st mat (list F) := mkst (fst x) (snd x).
+  Definition start {X} (x : X) (wf : list F * list mat) : st mat (list F) X := mkst (fst wf) (snd wf) x.
 
   Lemma init_cp_facs_other R w (fs : list mat) m d : m < length fs - 1 -> nth m (snd (init_cp rI rmul eqb R w fs)) d = nth m fs d.
   Proof.
     intros Hm. unfold init_cp. destruct (all_ones rI eqb _); cbn [snd]; [reflexivity|]. now apply nth_absorb_last_other.
   Qed.
 
+  Context {X : Type}.
+  Variable upd : nat -> nat -> st mat (list F) X -> mat * X.
+  Variable stop : nat -> st mat (list F) X -> bool.
+  Variable normf : st mat (list F) X -> st mat (list F) X.
+  Variable pre : nat -> st mat (list F) X -> st mat (list F) X.
+  Variable pre_on : nat -> bool.
+  Variable post : nat -> st mat (list F) X -> X.
+  Variable ls_on : nat -> bool.
+  Variable ls_accept : nat -> st mat (list F) X -> st mat (list F) X -> bool.
+  Variable lsf : nat -> st mat (list F) X -> mat -> mat -> mat.
+  Variable lsw : nat -> st mat (list F) X -> list F -> list F -> list F.
+  Variable lsx : nat -> st mat (list F) X -> st mat (list F) X -> X.
+  Notation run := (run upd stop normf false pre pre_on post ls_on ls_accept lsf lsw lsx).
+
   (* a fixed mode other than the last: the returned factor IS the supplied one, through the initialiser and any
-     number of sweeps of any algorithm *)
-  Theorem fixed_end_to_end upd stop normf a n fixed budget tol R w (fs : list mat) s' m d :
-    run upd stop normf false a n fixed budget tol (start (init_cp rI rmul eqb R w fs)) = Ok s' ->
+     number of sweeps of any algorithm (hooks: as in run_fixed_hooks) *)
+  Theorem fixed_end_to_end a n fixed budget tol R w (fs : list mat) x s' m d :
+    pre_keeps pre pre_on a m d -> ls_fixpoint lsf a ->
+    run a n fixed budget tol (start x (init_cp rI rmul eqb R w fs)) = Ok s' ->
     In m fixed -> (drops_last a = true -> m <> n - 1) -> m < length fs - 1 ->
     nth m (facs s') d = nth m fs d.
   Proof.
-    intros Hrun Hin Hl Hm. rewrite (run_fixed_user upd stop normf a n fixed budget tol _ s' d m Hrun Hin Hl).
+    intros Hp Hls Hrun Hin Hl Hm.
+    rewrite (run_fixed_user_hooks upd stop normf pre pre_on post ls_on ls_accept lsf lsw lsx a n fixed budget tol _ s' d m Hp Hls Hrun Hin Hl).
     unfold start. cbn [facs]. now apply init_cp_facs_other.
   Qed.
 
   (* the last mode, which only non_negative_parafac_hals lets the caller fix: the returned factor is the supplied one
      with the weights absorbed *)
-  Theorem fixed_last_mode_hals upd stop normf n fixed budget tol R w (fs : list mat) s' :
-    run upd stop normf false NNHals n fixed budget tol (start (init_cp rI rmul eqb R (Some w) fs)) = Ok s' ->
+  Theorem fixed_last_mode_hals n fixed budget tol R w (fs : list mat) x s' :
+    run NNHals n fixed budget tol (start x (init_cp rI rmul eqb R (Some w) fs)) = Ok s' ->
     In (length fs - 1) fixed -> fs <> [] ->
     nth (length fs - 1) (facs s') [] =
     if all_ones rI eqb w then nth (length fs - 1) fs [] else scale_cols rmul (nth (length fs - 1) fs []) w.
   Proof.
     intros Hrun Hin Hne.
-    rewrite (run_fixed_user upd stop normf NNHals n fixed budget tol _ s' [] _ Hrun Hin) by discriminate.
+    rewrite (run_fixed_user_hooks upd stop normf pre pre_on post ls_on ls_accept lsf lsw lsx NNHals n fixed budget tol
+               (start x (init_cp rI rmul eqb R (Some w) fs)) s' [] (length fs - 1));
+      [| intros H; discriminate | intros H; discriminate | exact Hrun | exact Hin | discriminate].
     unfold start, init_cp. destruct (all_ones rI eqb w); cbn [facs snd]; [reflexivity|]. now apply nth_absorb_last_last.
   Qed.
 End EndToEnd.
 
 Lemma hals_fixed_last_counterexample : exists (w : list Z) (fs : list (list (list Z))) s',
-  run (fun _ m s => nth m (facs s) []) (fun _ _ => false) (fun s => s) false NNHals 2 [1] 1 true
-      (start (init_cp 1%Z Z.mul Z.eqb 1 (Some w) fs)) = Ok s' /\ In 1 [1] /\
+  run (fun _ m s => (nth m (facs s) [], tt)) (fun _ _ => false) (fun s => s) false (fun _ s => s) (fun _ => false) (fun _ _ => tt)
+      (fun _ => false) (fun _ _ _ => false) (fun _ _ l c => c) (fun _ _ l c => c) (fun _ _ _ => tt) NNHals 2 [1] 1 true
+      (start tt (init_cp 1%Z Z.mul Z.eqb 1 (Some w) fs)) = Ok s' /\ In 1 [1] /\
   nth 1 (facs s') [] <> nth 1 fs [].
 Proof.
   exists [2%Z], [[[1%Z]]; [[1%Z]]]. eexists. split; [vm_compute; reflexivity|]. split; [now left|]. vm_compute. discriminate.
@@ -73,9 +92,11 @@ Section ZeroEndToEnd.
   Variable eqb : F -> F -> bool.
   Hypothesis eqb_ok : forall x y, eqb x y = true <-> x = y.
 
-  Theorem zero_budget_end_to_end upd stop normf normalize a n fixed tol R w (fs : list (@matrix F)) idx :
+  Theorem zero_budget_end_to_end (X : Type) (x : X) upd stop normf normalize pre pre_on post ls_on ls_accept lsf lsw lsx
+      a n fixed tol R w (fs : list (@matrix F)) idx :
     fs <> [] -> length w = R ->
-    exists s', run upd stop normf normalize a n fixed 0 tol (start (init_cp rI rmul eqb R (Some w) fs)) = Ok s' /\
+    exists s', run upd stop normf normalize pre pre_on post ls_on ls_accept lsf lsw lsx a n fixed 0 tol
+                   (start x (init_cp rI rmul eqb R (Some w) fs)) = Ok s' /\
       cp_entry rO rI radd rmul R (wts s') (facs s') idx = cp_entry rO rI radd rmul R w fs idx.
   Proof.
     intros Hne Hl. eexists. split; [apply run_zero_budget|].
